@@ -71,7 +71,7 @@ theorem byte_small (n : Nat) (hn : n < 128) : UInt8.ofNat n &&& 0x80 = 0 ∧ (UI
 theorem toBE_1 (n : Nat) : toBE 1 n = [UInt8.ofNat (n % 256)] := by simp [toBE]
 
 /-- every length field the encoder writes is one the decoder accepts for that value length -/
-theorem lenField_valid (si : Bool) (n : Nat) (l : Bytes) (hbig : n < 256 ^ 127) (h : lenField si n = some l) :
+theorem lenField_valid (si : Bool) (n : Nat) (l : Bytes) (hbig : si = false → n < 256 ^ 127) (h : lenField si n = some l) :
     ValidLen si l n := by
   unfold lenField at h
   by_cases h1 : (decide (n > 255) && si) = true
@@ -82,7 +82,7 @@ theorem lenField_valid (si : Bool) (n : Nat) (l : Bytes) (hbig : n < 256 ^ 127) 
       have hn : 128 ≤ n := by simp at h2; omega
       have hsi : si = false := by simp at h2; exact h2.2
       obtain ⟨k1, klt, _⟩ := lenLoop_minimal n hn
-      have k128 := lenLoop_lt_128 n hn hbig
+      have k128 := lenLoop_lt_128 n hn (hbig hsi)
       obtain ⟨b1, b2⟩ := byte_or_80 _ k128
       right
       refine ⟨hsi, _, _, h.symm, b1, ?_, ?_⟩
@@ -182,7 +182,7 @@ theorem or_80_eq_add (k : Nat) (hk : k < 128) : k ||| 0x80 = 0x80 + k := by
   exact h ⟨k, hk⟩
 
 /-- **canonical**: the encoder's length field is the shortest definite length -/
-theorem lenField_canonical (si : Bool) (n : Nat) (l : Bytes) (hbig : n < 256 ^ 127) (h : lenField si n = some l) :
+theorem lenField_canonical (si : Bool) (n : Nat) (l : Bytes) (hbig : si = false → n < 256 ^ 127) (h : lenField si n = some l) :
     l = berLen si n := by
   unfold lenField at h
   unfold berLen
@@ -195,7 +195,7 @@ theorem lenField_canonical (si : Bool) (n : Nat) (l : Bytes) (hbig : n < 256 ^ 1
       have hsi : si = false := by simp at h2; exact h2.2
       have : (si || decide (n < 128)) = false := by simp [hsi]; omega
       simp only [this, Bool.false_eq_true, if_false]
-      rw [← h, lenLoop_eq_byteLen n hn, or_80_eq_add _ (by rw [← lenLoop_eq_byteLen n hn]; exact lenLoop_lt_128 n hn hbig)]
+      rw [← h, lenLoop_eq_byteLen n hn, or_80_eq_add _ (by rw [← lenLoop_eq_byteLen n hn]; exact lenLoop_lt_128 n hn (hbig hsi))]
     · simp only [h2, Bool.false_eq_true, if_false, Option.some.injEq] at h
       have hn2 : n ≤ 127 ∨ si = true := by
         simp at h2; rcases Nat.lt_or_ge 127 n with hh | hh
